@@ -32,6 +32,11 @@ GO_CASES = [
     'case go7 kind=fault op=Go:RawObserver:unsafe faults=fn:0:pe5',
     'case go8 kind=fault op=Go:RawObserver:safe faults=-',
     'case go9 kind=fault op=Go:RawObserver:safe faults=fn:1:pv6',
+    # a TEARDOWN that panics on a goroutine of the library (every one of them runs under recoverUnhandledError since /repo 2d51ab1)
+    'case go10 kind=fault op=Go:Never faults=cb:0:pe5',
+    'case go11 kind=fault op=Go:ThrowOnContextCancel faults=cb:0:pv6',
+    'case go12 kind=fault op=Go:ToChannel faults=cb:0:pe5',
+    'case go13 kind=fault op=Go:ToChannel faults=-',
 ]
 
 
@@ -85,7 +90,7 @@ def go_rows():
     out = []
     for m in re.finditer(r'name := "([^"]+)".*?goStmts := \[(.*?)\],\n', src, flags=re.S):
         for g in re.finditer(r'line := (\d+), kind := "(\w+)", recovered := (\w+), callsUser := (\w+)', m.group(2)):
-            out.append((m.group(1), int(g.group(1)), g.group(3) == 'true', g.group(4) == 'true'))
+            out.append((m.group(1), int(g.group(1)), g.group(3) == 'true', g.group(4) == 'true', g.group(2)))
     return out
 
 
@@ -108,7 +113,7 @@ def search(ctx, out):
                 ctx.violation('subscription.Add no longer releases its mutex by defer: a panicking teardown leaves the subscription locked',
                               f'# the follow-up calls (Next, IsClosed, Unsubscribe) never return\n{case}\n# implementation: {g}\n')
                 found = True
-    bad = [r for r in go_rows() if r[3] and not r[2]]
+    bad = [r[:4] for r in go_rows() if not r[2] and (r[3] or r[4] == 'go')]     # every `go` statement must be recovered (every_goroutine_recovered)
     for name, line, _, _ in bad:
         case = f'case x kind=fault op=Go:{name} faults=cb:0:pe5'
         res = R.replay_cases(ctx, [case])
